@@ -128,4 +128,35 @@ def usesRaw (h : Hints) : Bool :=
     (decide (h.range > 0) && decide (h.range < Gen.PromStep.downsampleMs)) ||
     !((sup.getD false) || sup.isNone)
 
+/-! ### what the engine asks for (`promql.Engine.populateSeries`, pinned Prometheus v1.8.2-0.20220714 ≈ 2.37)
+
+    For a selector that is not under a sub-query and has no `@` modifier (qryn's engine has `EnableAtModifier: false`)
+    the engine passes `Start = start − (range, or the lookback delta for an instant selector) − offset`,
+    `End = end − offset`, `Step = interval` (0 for an instant query), `Range = range` and `Func` = the name of the nearest
+    enclosing function call or aggregation (`extractFuncFromPath`; `""` when a binary operator comes first or there is
+    none). Tied to the real engine by the `hints` stream (every function of `parser.Functions`, every aggregator). -/
+
+/-- the window of a query: `start`, `end`, `interval` in ms (`interval = 0`: instant query, then `start = end`) -/
+structure Query where
+  start : Int
+  stop : Int
+  step : Int
+deriving Repr
+
+/-- `populateSeries` / `getTimeRangesForSelector` for a selector with range `range` (0 = instant selector), offset `off`,
+    under the function / aggregation `func`; `lookback` = the engine's lookback delta (5 min: `LookbackDelta: 0`) -/
+def engineHints (q : Query) (lookback range off : Int) (func : String) : Hints :=
+  { start := q.start - (if range = 0 then lookback else range) - off,
+    stop := q.stop - off, step := q.step, range := range, func := func }
+
+/-- the classes `processHints` distinguishes by `hints.Func` -/
+inductive FuncClass
+  | instant   -- "" or a function of `instantVectors`: per-step pre-aggregation
+  | range     -- a function of `rangeVectors`: window filter when Step > Range
+  | other     -- anything else (aggregations, `timestamp`, `quantile_over_time`, `changes`, `histogram_quantile`, …): untouched
+deriving DecidableEq, Repr
+
+def classOf (f : String) : FuncClass :=
+  if isInstant f then .instant else if isRangeFn f then .range else .other
+
 end Qryn.Prom.Stepped
